@@ -40,6 +40,18 @@ def run(spec, workdir, name="spec"):
     return rep
 
 
+def confirmed(run_once):
+    """A time-out (or a tracer hiccup) is only believed after it reproduced on a second, fresh execution: run_once()
+    must restore the initial state itself. Returns the report of the last attempt; the first attempt's time-out is
+    noted in rep["retried_after_timeout"]."""
+    rep = run_once()
+    if rep.get("status") == "timeout":
+        rep2 = run_once()
+        rep2["retried_after_timeout"] = True
+        return rep2
+    return rep
+
+
 def replies(rep, i):
     """Parsed JSON replies of actor i."""
     out = []
